@@ -190,12 +190,15 @@ func (f *Fetcher) genRanges(ctx context.Context) <-chan fetchRange {
 		for start < end || f.opts.Continuous {
 			// In continuous mode wait for bigger STH every time we reach the end,
 			// including, possibly, the very first iteration.
-			if start == end { // Implies f.opts.Continuous == true.
+			if start >= end { // Implies f.opts.Continuous == true.
 				if err := f.updateSTH(ctx); err != nil {
 					klog.Warningf("%s: Failed to obtain bigger STH: %v", f.uri, err)
 					return
 				}
 				end = f.opts.EndIndex
+				if start >= end {
+					continue // The log has not grown up to StartIndex yet.
+				}
 			}
 
 			batchEnd := start + min(end-start, batch)
